@@ -251,10 +251,10 @@ C12_Counter(gc, cs) == cs.snap.has => cs.snap.since = gc.since
 (* C18 - reads and rejected writes leave stored state untouched            *)
 (***************************************************************************)
 NonMutating(gc, req, resp) ==
-  \/ req.op \in {"GetChildVersion", "GetSnapshot", "Walk"}
+  \/ req.op \in {"GetChildVersion", "GetSnapshot", "Walk", "Http"}
   \/ req.op = "AddVersion" /\ resp.kind \in {"conflict", "nosuchclient"}
   \/ req.op = "AddSnapshot" /\ ~SnapAccepts(gc, req.arg) /\ ~(SnapCorner(gc, req.arg) /\ ~gc.snap.has)
-  \/ resp.kind = "refused"
+  \/ resp.kind \in {"refused", "other"}
 
 C18_Step(gc, pre, post, req, resp) == NonMutating(gc, req, resp) => post = pre
 
